@@ -126,6 +126,11 @@ class Model(object):
         if cells is not None:
             cframe = Frame(cells, None, 0)
             st.envs[cframe.fid] = dict(cell_env or {})
+            # sibling closures defined in the same enclosing function resolve
+            # their free variables in this copy of its environment
+            if not hasattr(it, "cell_frames"):
+                it.cell_frames = {}
+            it.cell_frames[cells.qualname] = cframe
         call = ast.Call(func=ast.Name(id=fi.name, ctx=ast.Load()), args=[], keywords=[])
         call.lineno = fi.node.lineno
         call.col_offset = 0
